@@ -13,7 +13,7 @@ c=m.get('demo_cmd','')
 if c.startswith('cp ') and '&&' in c: m['demo_cmd']=c.split('&&',1)[1].strip(); json.dump(m,open(f,'w'),indent=1)
 PY
   done
-  for l in $(SKIP_SUITE=1 tools/intake_mut.sh $p 1 2>&1 | grep -E "KEPT" | awk '{print $1"-"$2}'); do ids="$ids $l"; done
+  for l in $(SKIP_SUITE=1 tools/intake_mut.sh $p ${INTAKE_SLOT:-1} 2>&1 | grep -E "KEPT" | awk '{print $1"-"$2}'); do ids="$ids $l"; done
   git -C /repo worktree remove --force /tmp/mut/$p 2>/dev/null
 done
 echo "kept:$ids"
